@@ -547,22 +547,18 @@ def _passes_non_mapping(body, path):
 
 
 def _e1_bodies(b, cfg, other):
-    """The body universe for one (cfg, other-operator) pair: exhaustive product in the thorough tier; in the quick
-    tier every annotation subset is enumerated while the remaining dimensions rotate (each value of each
-    dimension occurs with each annotation kind)."""
+    """The body universe for one (cfg, other-operator) pair: every subset of <= 2 (quick) / <= 3 (thorough) annotation
+    kinds, each with 1-2 (quick) / 6 (thorough) bodies whose remaining dimensions rotate, so that each value of each
+    dimension meets each annotation kind.  (The full product, 288 x 64 bodies x 72 configurations x ~170 writes, is
+    out of reach: ~10^9 evaluations.)"""
     max_kinds = 3 if b.thorough else 2
     subsets = [c for n in range(max_kinds + 1) for c in itertools.combinations(ANNOTATION_KINDS, n)]
-    if b.thorough:
-        for spec, status, labels, data, sysmeta in itertools.product(SPECS, STATUSES, LABELS, DATAS, SYSMETA):
-            for kinds in subsets:
-                yield with_annotations(base_body(spec, status, labels, data, sysmeta), kinds, cfg, other), kinds
-    else:
-        for i, kinds in enumerate(subsets):
-            for r in range(2 if len(kinds) <= 1 else 1):
-                j = 2 * i + r
-                base = base_body(SPECS[j % len(SPECS)], STATUSES[(j // 2) % len(STATUSES)], LABELS[j % len(LABELS)],
-                                 DATAS[(j // 3) % len(DATAS)], SYSMETA[(j + r) % len(SYSMETA)])
-                yield with_annotations(base, kinds, cfg, other), kinds
+    for i, kinds in enumerate(subsets):
+        for r in range(6 if b.thorough else 2 if len(kinds) <= 1 else 1):
+            j = 2 * i + r
+            base = base_body(SPECS[j % len(SPECS)], STATUSES[(j // 2) % len(STATUSES)], LABELS[j % len(LABELS)],
+                             DATAS[(j // 3) % len(DATAS)], SYSMETA[(j + r) % len(SYSMETA)])
+            yield with_annotations(base, kinds, cfg, other), kinds
 
 
 @bounded('E1', targets=['kopf._cogs.configs.diffbase.DiffBaseStorage.build', 'kopf._cogs.configs.diffbase.AnnotationsDiffBaseStorage.build',
@@ -574,8 +570,8 @@ def _e1_bodies(b, cfg, other):
                   'stored_essence_is_fixpoint', 'everything_else_counts', 'pure'],
          universe='72 configurations {Annotations,Status,Smart,Multi progress} x {Annotations,Status,Multi diff-base} x prefixes '
                   '{kopf.zalando.org,my-op.example.com,kopf.dev} x v1 {T,F}; other operator: 4 storage combinations x the 2 other prefixes; '
-                  'bodies: 6 spec shapes x 4 status shapes x 3 label shapes x 2 data x 2 system-metadata shapes x subsets (<=2 quick, <=3 thorough) '
-                  'of 7 annotation kinds (operator-made ones produced by the real storage code); extra_fields in {(), spec.x, status.observed}; '
+                  'bodies: subsets (<=2 quick, <=3 thorough) of 7 annotation kinds x rotating 6 spec shapes, 4 status shapes, 3 label shapes, 2 data, 2 system-metadata shapes '
+                  '(operator-made annotations produced by the real storage code); extra_fields in {(), spec.x, status.observed}; '
                   'writes: progress store/purge (4 ids) / touch (2), diffbase store (2), marker, one whole-cycle patch, 3 finalizer edits, '
                   '5 status edits, 11 system-metadata edits; ~25 essential edits per body')
 def E1(b):
@@ -605,14 +601,13 @@ def E1(b):
     configs = all_configs()
     by_key = {(c.pk, c.dk, c.prefix, c.v1): c for c in configs}
     other_kinds = (('annotations', 'annotations'), ('smart', 'annotations'), ('status', 'status'), ('multi', 'multi'))
-    if not b.thorough:
-        b.sampled('quick tier: annotation subsets of size <= 2 with the other body dimensions rotating; '
-                  'extra_fields rotate per body; thorough tier: full product')
+    b.sampled('bodies: every annotation subset (size <= 2 quick / <= 3 thorough) with the other body dimensions and extra_fields '
+              'rotating; other operators: all 8 on every 8th body (quick) / every body (thorough)')
     for ci, cfg in enumerate(configs):
         others = [by_key[(pk, dk, p, cfg.v1)] for p in PREFIXES if p != cfg.prefix for pk, dk in other_kinds]
         primary_other = others[ci % len(others)]      # produces the pre-existing "other operator" annotations
         for bi, (body, kinds) in enumerate(_e1_bodies(b, cfg, primary_other)):
-            extras_list = EXTRAS if b.thorough else (EXTRAS[(bi + ci) % len(EXTRAS)],)
+            extras_list = (EXTRAS[(bi + ci) % len(EXTRAS)],)
             for extra in extras_list:
                 frozen = json.dumps(body, sort_keys=True)
                 e0 = essence_of(cfg, body, extra)
